@@ -284,9 +284,9 @@ func readLine(r *bufio.Reader) (string, error) {
 		if !more {
 			break
 		}
-		// if len(line) >maxLineLenght {
-		// 	return string(line),errors.New("line over the maximum length")
-		// }
+		if len(line) > maxLineLenght { // 拒绝超长行，避免对端无限制地占用内存
+			return "", &badStringError{"line over the maximum length", strconv.Itoa(len(line))}
+		}
 	}
 	return string(line), nil
 }
